@@ -39,23 +39,18 @@ Section DL.
   Notation lalive := (lalive T).
 
   (* [l] lists the node indices front to back; every node is alive and its prev/next point to its neighbours *)
-  Definition node_ok (a : list lnode) (l : list nat) (k i : nat) : Prop :=
-    exists nd, nth_error a i = Some nd /\ lalive nd = true /\
-               lprev nd = (if k =? 0 then None else nth_error l (k - 1)) /\ lnext nd = nth_error l (S k).
+  Notation node_ok := (node_ok T).
 
-  Definition dl_wf (d : dlist) (l : list nat) : Prop :=
-    NoDup l /\ lfront d = nth_error l 0 /\
-    lback d = (if length l =? 0 then None else nth_error l (length l - 1)) /\
-    forall k i, nth_error l k = Some i -> node_ok (larena d) l k i.
+  Notation dl_wf := (dl_wf T).
 
-  Definition val_at (a : list lnode) (i : nat) : T := match nth_error a i with Some nd => lval nd | None => dflt end.
-  Definition vals (a : list lnode) (l : list nat) : list T := map (val_at a) l.
+  Notation val_at := (val_at T dflt).
+  Notation vals := (vals T dflt).
 
   Lemma vals_length : forall a l, length (vals a l) = length l.
   Proof. intros. apply map_length. Qed.
 
   Lemma nthe_vals : forall a l k, nth_error (vals a l) k = option_map (val_at a) (nth_error l k).
-  Proof. intros. unfold vals. apply nth_error_map. Qed.
+  Proof. intros. unfold Model.vals. apply nth_error_map. Qed.
 
   Lemma lget_alive : forall a i nd, nth_error a i = Some nd -> lalive nd = true -> lget T i a = Ok nd.
   Proof. intros. unfold lget. rewrite (sget_Some _ _ _ _ H). cbn [rbind]. rewrite H0. reflexivity. Qed.
@@ -73,7 +68,7 @@ Section DL.
   Proof. intros. destruct (wf_node _ _ _ _ H H0) as (nd & A & _). eapply nth_error_Some_lt; eauto. Qed.
 
   Lemma vals_ext : forall a a' l, (forall i, In i l -> val_at a' i = val_at a i) -> vals a' l = vals a l.
-  Proof. intros. unfold vals. apply map_ext_in. assumption. Qed.
+  Proof. intros. unfold Model.vals. apply map_ext_in. assumption. Qed.
 
   (* ---- walking front to back yields exactly the abstract list *)
   Lemma dl_walk_ok : forall d l, dl_wf d l -> forall n k fuel, length l - k = n -> n < fuel ->
@@ -88,7 +83,7 @@ Section DL.
       assert (skipn k l = i :: skipn (S k) l) as ->.
       { apply nth_error_ext; intro j. rewrite nthe_cons, !nthe_skipn.
         destruct (Nat.eqb_spec j 0); [subst; rewrite Nat.add_0_r; assumption|f_equal; lia]. }
-      cbn [vals map]. unfold val_at at 1. rewrite A. reflexivity.
+      cbn [Model.vals map]. unfold Model.val_at at 1. rewrite A. reflexivity.
   Qed.
 
   Lemma wf_len : forall d l, dl_wf d l -> length l <= length (larena d).
@@ -122,12 +117,12 @@ Section DL.
   Lemma val_at_upd : forall a i nd f j, nth_error a i = Some nd -> lval (f nd) = lval nd ->
     val_at (overwrite i [f nd] a) j = val_at a j.
   Proof.
-    intros. unfold val_at. rewrite nthe_upd by (eapply nth_error_Some_lt; eauto).
+    intros. unfold Model.val_at. rewrite nthe_upd by (eapply nth_error_Some_lt; eauto).
     destruct (Nat.eqb_spec j i); [subst; rewrite H; assumption|reflexivity].
   Qed.
 
   Lemma val_at_snoc : forall a x j, j < length a -> val_at (a ++ [x]) j = val_at a j.
-  Proof. intros. unfold val_at. rewrite nthe_snoc. destruct (Nat.ltb_spec j (length a)); [reflexivity|lia]. Qed.
+  Proof. intros. unfold Model.val_at. rewrite nthe_snoc. destruct (Nat.ltb_spec j (length a)); [reflexivity|lia]. Qed.
 
   (* ---- pushfront *)
   Lemma dl_pushfront_ok : forall x d l, dl_wf d l ->
@@ -145,8 +140,8 @@ Section DL.
       + apply wf_intro; [repeat constructor; auto|reflexivity|reflexivity|].
         intros k j Hk. destruct k; [|destruct k; discriminate]. cbn in Hk. inversion Hk; subst j.
         exists new. split; [unfold a'; rewrite nthe_snoc; fold i; rewrite Nat.ltb_irrefl, Nat.eqb_refl; reflexivity|]. auto.
-      + cbn. unfold val_at, a'. rewrite nthe_snoc. fold i. rewrite Nat.ltb_irrefl, Nat.eqb_refl. reflexivity.
-      + cbn [Model.larena]. unfold val_at, a'. rewrite nthe_snoc. fold i. rewrite Nat.ltb_irrefl, Nat.eqb_refl. reflexivity.
+      + cbn. unfold Model.val_at, a'. rewrite nthe_snoc. fold i. rewrite Nat.ltb_irrefl, Nat.eqb_refl. reflexivity.
+      + cbn [Model.larena]. unfold Model.val_at, a'. rewrite nthe_snoc. fold i. rewrite Nat.ltb_irrefl, Nat.eqb_refl. reflexivity.
       + reflexivity.
     - cbn in F. subst fr. destruct (P 0 f eq_refl) as (ndf & Hf & Af & Pf & Nf).
       assert (f < i) as Lf by (apply (LT 0 f eq_refl)).
@@ -179,11 +174,11 @@ Section DL.
               rewrite Pn. destruct k' as [|k'']; [cbn in Hk; inversion Hk; congruence|]. cbn [Nat.eqb].
               replace (S k'' - 1) with k'' by lia. replace (S (S k'') - 1) with (S k'') by lia. reflexivity. }
       + cbn [Model.larena]. change (vals a1 (i :: f :: tl)) with (val_at a1 i :: vals a1 (f :: tl)). f_equal.
-        * unfold val_at. rewrite N1. destruct (Nat.eqb_spec i f); [lia|]. rewrite Nat.ltb_irrefl, Nat.eqb_refl. reflexivity.
+        * unfold Model.val_at. rewrite N1. destruct (Nat.eqb_spec i f); [lia|]. rewrite Nat.ltb_irrefl, Nat.eqb_refl. reflexivity.
         * apply vals_ext. intros j Hj. unfold a1.
           rewrite (val_at_upd a' f ndf (set_lprev T (Some i)) j Hf' eq_refl).
           apply val_at_snoc. apply In_nth_error in Hj. destruct Hj as (k & Hk). apply (LT _ _ Hk).
-      + cbn [Model.larena]. unfold val_at. rewrite N1. destruct (Nat.eqb_spec i f); [lia|]. rewrite Nat.ltb_irrefl, Nat.eqb_refl. reflexivity.
+      + cbn [Model.larena]. unfold Model.val_at. rewrite N1. destruct (Nat.eqb_spec i f); [lia|]. rewrite Nat.ltb_irrefl, Nat.eqb_refl. reflexivity.
       + reflexivity.
   Qed.
 
@@ -302,11 +297,11 @@ Section DL.
           * rewrite SJ. destruct (nth_error a j); reflexivity.
         + rewrite SJ. destruct (nth_error a j); reflexivity. }
     assert (forall j, j <> i -> val_at (ins_arena a l p x) j = val_at a j) as VA.
-    { intros j Hj. unfold val_at. rewrite NA. destruct (Nat.eqb_spec j i); [contradiction|].
+    { intros j Hj. unfold Model.val_at. rewrite NA. destruct (Nat.eqb_spec j i); [contradiction|].
       destruct (nth_error a j); [|reflexivity].
       destruct (match nth_error l p with Some q => j =? q | None => false end); [reflexivity|].
       destruct (match prev_of l p with Some q => j =? q | None => false end); reflexivity. }
-    assert (val_at (ins_arena a l p x) i = x) as VI by (unfold val_at; rewrite NA, Nat.eqb_refl; reflexivity).
+    assert (val_at (ins_arena a l p x) i = x) as VI by (unfold Model.val_at; rewrite NA, Nat.eqb_refl; reflexivity).
     split; [|split; [|exact VI]].
     - apply wf_intro.
       + unfold ins_list. apply NoDup_app_insert.
@@ -321,7 +316,7 @@ Section DL.
         * subst p. rewrite Nat.ltb_irrefl; rewrite ?Nat.eqb_refl; reflexivity.
         * destruct (Nat.ltb_spec (length l) p); [lia|]. destruct (Nat.eqb_spec (length l) p); [lia|].
           rewrite B. destruct (Nat.eqb_spec (length l) 0); [lia|reflexivity].
-      + intros k j Hk. rewrite nthe_ins_list in Hk by assumption. unfold node_ok.
+      + intros k j Hk. rewrite nthe_ins_list in Hk by assumption. unfold Model.node_ok.
         rewrite NA. rewrite !nthe_ins_list by assumption.
         destruct (Nat.ltb_spec k p).
         * (* before the new node *)
@@ -445,7 +440,7 @@ Section DL.
         + destruct (Nat.eqb_spec j r2) as [->|H2]; [destruct (nth_error a r2); reflexivity|destruct (nth_error a j); reflexivity].
       - destruct (Nat.eqb_spec j q) as [->|Hjq]; [rewrite Hnq; reflexivity|]. destruct (nth_error a j); reflexivity. }
     assert (forall j, j <> q -> val_at (rem_arena a l p) j = val_at a j) as VA.
-    { intros j Hj. unfold val_at. rewrite NA. destruct (nth_error a j); [|reflexivity].
+    { intros j Hj. unfold Model.val_at. rewrite NA. destruct (nth_error a j); [|reflexivity].
       destruct (Nat.eqb_spec j q); [contradiction|].
       destruct (match nth_error l (S p) with Some r => j =? r | None => false end); [reflexivity|].
       destruct (match prev_of l p with Some r => j =? r | None => false end); reflexivity. }
@@ -468,7 +463,7 @@ Section DL.
             unfold prev_of. destruct (Nat.eqb_spec p 0); [lia|]. f_equal. lia. }
           { destruct (Nat.ltb_spec (length (rem_list l p) - 1) p); [lia|].
             rewrite B. destruct (Nat.eqb_spec (length l) 0); [lia|]. f_equal. lia. }
-      + intros k j Hk. rewrite nthe_rem_list in Hk by assumption. unfold node_ok.
+      + intros k j Hk. rewrite nthe_rem_list in Hk by assumption. unfold Model.node_ok.
         rewrite NA. rewrite !nthe_rem_list by assumption.
         destruct (Nat.ltb_spec k p).
         * destruct (P k j Hk) as (nd & Hn & An & Pn & Nn). rewrite Hn.
@@ -559,7 +554,7 @@ Section DL.
       assert (skipn k l = i :: skipn (S k) l) as ->.
       { apply nth_error_ext; intro j. rewrite nthe_cons, !nthe_skipn.
         destruct (Nat.eqb_spec j 0); [subst; rewrite Nat.add_0_r; assumption|f_equal; lia]. }
-      cbn [vals map l_index]. unfold val_at at 1. rewrite A.
+      cbn [Model.vals map l_index]. unfold Model.val_at at 1. rewrite A.
       destruct (teqb (lval nd) v).
       + rewrite Nat.add_0_r, E. reflexivity.
       + rewrite D. rewrite (IHn (S k) fuel) by lia. fold (vals (larena d) (skipn (S k) l)).
@@ -713,7 +708,7 @@ Section DL.
       - rewrite <- e. cbn [Nat.sub]. rewrite Hf. cbn [opt_eqb]. rewrite Nat.eqb_refl. reflexivity.
       - destruct (opt_eqb (nth_error l (length l - 1)) (Some f)) eqn:E; [|reflexivity]. apply opt_eqb_spec in E.
         assert (length l - 1 = 0) by (eapply NoDup_nth_inj; eauto). lia. }
-    rewrite EB, Nn. unfold val_at. rewrite Hn.
+    rewrite EB, Nn. unfold Model.val_at. rewrite Hn.
     eexists; split; [reflexivity|]. split; [exact W'|exact V'].
   Qed.
 
@@ -745,7 +740,7 @@ Section DL.
       - rewrite e in Hb. rewrite Hb. cbn [opt_eqb]. rewrite Nat.eqb_refl. symmetry. apply nthe_beyond. lia.
       - destruct (opt_eqb (nth_error l 0) (Some b)) eqn:E; [|reflexivity]. apply opt_eqb_spec in E.
         assert (0 = length l - 1) by (eapply NoDup_nth_inj; eauto). lia. }
-    rewrite EF, EP. unfold val_at. rewrite Hn.
+    rewrite EF, EP. unfold Model.val_at. rewrite Hn.
     eexists; split; [reflexivity|]. split; [exact W'|exact V'].
   Qed.
 
@@ -804,8 +799,8 @@ Section DL.
       destruct (dl_pushback_ok x d l W) as (d' & -> & W' & V' & _). cbn [rbind]. eauto.
     - (* popfront *)
       destruct l as [|f tl].
-      + cbn [vals map]. unfold dl_popfront. destruct W as (_ & F & _). rewrite F. reflexivity.
-      + destruct (dl_popfront_ok d (f :: tl) f W eq_refl) as (d' & -> & W' & V'). cbn [rbind fst snd vals map].
+      + cbn [Model.vals map]. unfold dl_popfront. destruct W as (_ & F & _). rewrite F. reflexivity.
+      + destruct (dl_popfront_ok d (f :: tl) f W eq_refl) as (d' & -> & W' & V'). cbn [rbind fst snd Model.vals map].
         exists d', (rem_list (f :: tl) 0). split; [reflexivity|]. split; [assumption|]. rewrite V'. reflexivity.
     - (* popback *)
       rewrite vals_length, nthe_vals.
@@ -830,12 +825,12 @@ Section DL.
           destruct (dl_pushfront_ok x d l W) as (d' & -> & W' & V' & VI & FR). cbn [rbind fst snd]. rewrite FR.
           destruct W' as (ND' & F' & B' & P'). destruct (P' 0 _ eq_refl) as (nd & A1 & A2 & _).
           rewrite (lget_alive _ _ _ A1 A2). cbn [rbind].
-          assert (lval nd = x) as -> by (unfold val_at in VI; rewrite A1 in VI; exact VI).
+          assert (lval nd = x) as -> by (unfold Model.val_at in VI; rewrite A1 in VI; exact VI).
           exists d', (length (larena d) :: l). split; [reflexivity|].
           split; [split; [assumption|split; [assumption|split; assumption]]|]. rewrite V'. reflexivity.
         * destruct (dl_insert_mid_ok x d l (S m') q W Eq ltac:(lia)) as (d' & -> & W' & V' & VI & (nd & A1 & A2)).
           cbn [rbind fst snd]. rewrite (lget_alive _ _ _ A1 A2). cbn [rbind].
-          assert (lval nd = x) as -> by (unfold val_at in VI; rewrite A1 in VI; exact VI).
+          assert (lval nd = x) as -> by (unfold Model.val_at in VI; rewrite A1 in VI; exact VI).
           eauto.
       + unfold dl_insert. destruct (dl_pushback_ok x d l W) as (d' & -> & W' & V' & BK & VI). cbn [rbind fst snd]. rewrite BK.
         pose proof W' as (ND' & F' & B' & P').
@@ -843,7 +838,7 @@ Section DL.
         { rewrite nthe_app. destruct (Nat.ltb_spec (length l) (length l)); [lia|]. rewrite Nat.sub_diag. reflexivity. }
         destruct (P' _ _ Hi) as (nd & A1 & A2 & _).
         rewrite (lget_alive _ _ _ A1 A2). cbn [rbind].
-        assert (lval nd = x) as -> by (unfold val_at in VI; rewrite A1 in VI; exact VI).
+        assert (lval nd = x) as -> by (unfold Model.val_at in VI; rewrite A1 in VI; exact VI).
         eauto.
     - (* erase the first node holding v *)
       rewrite (dl_find_ok d l v W). cbn [rbind].
@@ -858,7 +853,7 @@ Section DL.
           { rewrite nthe_rem_list by lia. rewrite Nat.ltb_irrefl. assumption. }
           destruct (P' _ _ Hi) as (x & A1 & A2 & _). rewrite (lget_alive _ _ _ A1 A2). cbn [rbind].
           assert (lval x = val_at (larena d) n) as ->.
-          { rewrite <- (VA n). - unfold val_at. rewrite A1. reflexivity.
+          { rewrite <- (VA n). - unfold Model.val_at. rewrite A1. reflexivity.
             - intros Hnq. subst n. destruct W as (ND & _). pose proof (NoDup_nth_inj l (S m) m q ND En Eq). lia. }
           exists d', (rem_list l m). split; [reflexivity|]. split; [assumption|]. exact V'.
         * exists d', (rem_list l m). split; [reflexivity|]. split; [assumption|]. exact V'.
@@ -889,16 +884,8 @@ Section DL.
       apply wf_intro; [constructor|reflexivity|reflexivity|]. intros k i H. rewrite nthe_nil in H. discriminate.
   Qed.
 
-  Fixpoint dl_run (ops : list (lop T)) (d : dlist) : res (dlist * list (lret T)) :=
-    match ops with
-    | [] => Ok (d, [])
-    | o :: tl => p <- dl_step T teqb o d ;; q <- dl_run tl (fst p) ;; Ok (fst q, snd p :: snd q)
-    end.
-  Fixpoint ll_run (ops : list (lop T)) (l : list T) : res (list T * list (lret T)) :=
-    match ops with
-    | [] => Ok (l, [])
-    | o :: tl => p <- ll_step T teqb o l ;; q <- ll_run tl (fst p) ;; Ok (fst q, snd p :: snd q)
-    end.
+  Notation dl_run := (dl_run T teqb).
+  Notation ll_run := (ll_run T teqb).
 
   Theorem dl_run_refines : forall ops d l, dl_wf d l ->
     match ll_run ops (vals (larena d) l) with
@@ -906,7 +893,7 @@ Section DL.
     | Trap t => dl_run ops d = Trap t
     end.
   Proof.
-    induction ops as [|o tl IH]; intros d l W; cbn [ll_run dl_run].
+    induction ops as [|o tl IH]; intros d l W; cbn [Model.ll_run Model.dl_run].
     - eauto.
     - pose proof (dl_step_refines o d l W) as S.
       destruct (ll_step T teqb o (vals (larena d) l)) as [[l1 r1]|t]; cbn [rbind fst snd].
